@@ -88,9 +88,9 @@ def _valid_property(sim):
     p = pg.prop()
     if not p['meta'] and sim.coin('forcemeta', 0.3):
         p['meta'] = [('title', '"title %d"' % sim.choose('tv', 100))]
-    if sim.coin('nonascii', 0.25):
+    if sim.coin('nonascii', 0.35):
         # text as people write it: accents, arrows, emoji inside strings
-        word = sim.pick('naword', ('caf\u00e9', 'gr\u00f6\u00dfe \u2192 max', '\u65e5\u672c', 'ok \U0001f600', 'na\u00efve'))
+        word = sim.pick('naword', ('caf\u00e9', 'gr\u00f6\u00dfe \u2192 max', '\u65e5\u672c', 'ok \U0001f600', 'na\u00efve') + gen.STRING_CONTENTS)
         if sim.coin('nameta', 0.5):
             p['meta'] = [m for m in p['meta'] if m[0] != 'description'] + [('description', '"%s"' % word)]
         else:
